@@ -92,19 +92,19 @@ theorem slist_atomic (P : Params) (s : Chain × Chain) (op : Op) (m : Mem) (h : 
 /-- a refused iterator `add` leaves the list **and the cursor** unchanged (ascending and descending
 iterator of `cc_list.c`, iterator of `cc_slist.c`); every `liveT` unchanged -/
 theorem iter_add_refused (t : Triple) (xs : List Nat) (x : Nat) (m : Mem) (hr : (m.allocT t).1 = false) :
-    (∀ (c : LSeq.Cursor) (it : DList.Iter) (k : Nat), DList.ItRel xs c it → c.cur = some k → c.pos = k + 1 →
+    (∀ (c : LSeq.Cursor) (it : DList.Iter) (k : Nat), DList.ItRel xs c it → c.cur = some k →
       DList.iterAdd (ofList t xs) it x m = (.errAlloc, ofList t xs, it, (m.allocT t).2)) ∧
-    (∀ (c : LSeq.Cursor) (it : DList.Iter) (k : Nat), DList.DitRel xs c it → c.cur = some k → c.pos = k →
+    (∀ (c : LSeq.Cursor) (it : DList.Iter) (k : Nat), DList.DitRel xs c it → c.cur = some k →
       DList.diterAdd (ofList t xs) it x m = (.errAlloc, ofList t xs, it, (m.allocT t).2)) ∧
     (∀ (c : LSeq.Cursor) (it : SList.Iter) (k : Nat), SList.ItRel xs c it → c.cur = some k →
       SList.iterAdd (ofList t xs) it x m = (.errAlloc, ofList t xs, it, (m.allocT t).2)) ∧
     (∀ t', (m.allocT t).2.liveT t' = m.liveT t') := by
   refine ⟨?_, ?_, ?_, (Mem.allocT_all_false m t hr).2.2⟩
-  · intro c it k h hc hp
-    obtain ⟨it', e, _⟩ := DList.iterAdd_ofList (t := t) xs c it x k m h hc hp
+  · intro c it k h hc
+    obtain ⟨it', e, _⟩ := DList.iterAdd_ofList (t := t) xs c it x k m h hc
     rw [e]; simp [hr]
-  · intro c it k h hc hp
-    obtain ⟨it', e, _⟩ := DList.diterAdd_ofList (t := t) xs c it x k m h hc hp
+  · intro c it k h hc
+    obtain ⟨it', e, _⟩ := DList.diterAdd_ofList (t := t) xs c it x k m h hc
     rw [e]; simp [hr]
   · intro c it k h hc
     obtain ⟨it', e, _⟩ := SList.iterAdd_ofList (t := t) xs c it x k m h hc
@@ -126,7 +126,7 @@ theorem zip_refused_ledger (t t2 : Triple) (m : Mem) :
 /-- a zip-iterator `add` of `cc_list.c` refused at the first or at the second node leaves both lists
 and the cursor unchanged; every `liveT` unchanged -/
 theorem dlist_zip_add_refused (t t2 : Triple) (xs ys : List Nat) (c : LSeq.Cursor) (z : DList.ZipIter) (x1 x2 k : Nat) (m : Mem)
-    (h : DList.ZipRel xs ys c z) (hc : c.cur = some k) (hp : c.pos = k + 1)
+    (h : DList.ZipRel xs ys c z) (hc : c.cur = some k)
     (hr : (m.allocT t).1 = false ∨ ((m.allocT t).2.allocT t2).1 = false) :
     (DList.zipAdd (ofList t xs) (ofList t2 ys) z x1 x2 m).1 = .errAlloc ∧
     (DList.zipAdd (ofList t xs) (ofList t2 ys) z x1 x2 m).2.1 = ofList t xs ∧
@@ -134,7 +134,7 @@ theorem dlist_zip_add_refused (t t2 : Triple) (xs ys : List Nat) (c : LSeq.Curso
     (DList.zipAdd (ofList t xs) (ofList t2 ys) z x1 x2 m).2.2.2.1 = z ∧
     (DList.zipAdd (ofList t xs) (ofList t2 ys) z x1 x2 m).2.2.2.2.fault = m.fault ∧
     (∀ t', (DList.zipAdd (ofList t xs) (ofList t2 ys) z x1 x2 m).2.2.2.2.liveT t' = m.liveT t') := by
-  obtain ⟨z', e, _⟩ := DList.zipAdd_ofList (t := t) (t2 := t2) xs ys c z x1 x2 k m h hc hp
+  obtain ⟨z', e, _⟩ := DList.zipAdd_ofList (t := t) (t2 := t2) xs ys c z x1 x2 k m h hc
   obtain ⟨l1, l2⟩ := zip_refused_ledger t t2 m
   rw [e]
   by_cases h1 : (m.allocT t).1 = true
